@@ -120,6 +120,13 @@ def check_mutations(ctx, prog, S):
                         after = set(s['members'].get((S['D'], g), []))
                         other = 'g2' if g == 'g1' else 'g1'
                         claims['other_groups_untouched'] = sorted(s['members'].get((S['D'], other), [])) == sorted(members[(S['D'], other)])
+                        # join / monitor clone an actor's relations record out of the reverse index first and lock it later: that is only sound because the record
+                        # of an actor stays in the index until the actor has published Stopping. No operation may remove the record of a live actor.
+                        had_record = {x for m_ in members.values() for x in m_} | {x for l_ in listeners.values() for x in l_} | {x for l_ in world.values() for x in l_}
+                        for x in sorted(had_record):
+                            live = le(I, w, x) if x in w.status else z3.BoolVal(True)
+                            ctx.prove('%s.%s_relations_record_survives_while_the_actor_is_live' % (name, x), o.st.pc, z3.Or(z3.BoolVal(x in s['relations']), z3.Not(live)),
+                                      group='C11.%s.the_relations_record_of_a_live_actor_is_never_removed' % op, key='C11.' + op + '.the_relations_record_of_a_live_actor_is_never_removed', on_cex=(lambda m: replay_last_leave()))
                         notes = notifications(o)
                         want_rcpt = expected_recipients(S, listeners, world, g)
                         if op == 'join_scoped':
@@ -276,6 +283,13 @@ def replay(op, g, who, members, listeners, world, S):
     if k not in _replayed:
         _replayed[k] = C11_replay.replay(op, g, who, members, listeners, world, S)
     return _replayed[k]
+
+
+def replay_last_leave():
+    import C11_replay
+    if 'last_leave' not in _replayed:
+        _replayed['last_leave'] = C11_replay.race_last_leave()
+    return _replayed['last_leave']
 
 
 def run(ctx):
